@@ -22,7 +22,8 @@ Section SelSessionP.
     destruct (c_full c && has_thr (c_thr c)); [now left|].
     destruct (resolve_n _ _) as [k|]; [|now left].
     destruct (c_warm c) eqn:Hw.
-    - destruct (Select.sfit _ _ _ _ _ _) as [|g st]; [now left|]. right; right. now exists g, st.
+    - destruct (match o with Some g0 => Nat.ltb k (length (sel g0)) | None => false end); [now left|].
+      destruct (Select.sfit _ _ _ _ _ _) as [|g st]; [now left|]. right; right. now exists g, st.
     - destruct (init_check _ _ _) as [inits|]; [|right; left; auto].
       destruct (Select.sfit _ _ _ _ _ _) as [|g st]; [now left|]. right; right. now exists g, st.
   Qed.
@@ -63,6 +64,7 @@ Section SelSessionP.
     destruct (c_full c && has_thr (c_thr c)) eqn:Ef; [reflexivity|].
     destruct (resolve_n n (c_nts c)) as [k|] eqn:Er; [|reflexivity].
     rewrite Hw.
+    destruct (match o with Some g0 => Nat.ltb k (length (sel g0)) | None => false end); [reflexivity|].
     assert (E : sfit o c [] str = Rejected).
     { unfold Select.sfit. rewrite Ef, Er, Hw.
       destruct Hu as [->|(g & -> & Hs)]; [reflexivity|]. now rewrite Hs. }
@@ -147,3 +149,13 @@ Qed.
 
 Lemma init_check_too_long n k l : (k < length l)%nat -> init_check n k (InitIdx l) = None.
 Proof. intros H. cbn. apply Nat.leb_gt in H. now rewrite H. Qed.
+
+(* a warm start that asks for fewer items than are selected is rejected and leaves no trace *)
+Lemma sess_shrinking_warm_rejected cand ycand g c r str k :
+  c_full c && has_thr (c_thr c) = false -> resolve_n (length cand) (c_nts c) = Some k ->
+  c_warm c = true -> (k < length (sel g))%nat ->
+  sess_fit cand ycand (Some g) c r str = (Some g, RPre).
+Proof.
+  intros Hf Hr Hw Hk. unfold sess_fit. rewrite Hf, Hr, Hw.
+  apply Nat.ltb_lt in Hk. now rewrite Hk.
+Qed.
